@@ -380,7 +380,7 @@ func (w *world) doRender(op M) M {
 		}
 		w.nrender++
 	} else {
-		renderCalls++
+		renderCalls.Add(1)
 	}
 	res := M{"fmt": tg.kind, "status": status, "empty": b2i(text == ""), "entry": entry}
 	if status == "panic" {
